@@ -46,7 +46,7 @@ CONSTANTS NT,         \* number of tasks the application may fire (<= MaxT)
           Outcomes,   \* subset of 1..4
           Variants,   \* variants the initial state chooses from
           WithStop, WithUnreg, WithOther,   \* BOOLEAN: which environment actions exist
-          SettleCap   \* cap of the settling loop of Quiet (the driver's is the same)
+          KeepOut     \* BOOLEAN: keep the emitted lines in `out` (off in the exhaustive run: smaller states)
 
 VARIABLES st,       \* the system (record, see Init)
           variant,
@@ -178,17 +178,10 @@ TickF(s) ==
       s2 == FlushFrom([s1 EXCEPT !.q = <<>>], s1.q, 1)
   IN [Put(s2, s2.nv) EXCEPT !.nv = <<>>]
 
-(* the driver's quiescence: let the pool finish what it has, tick, until nothing is left to do *)
+(* nothing is left to do: the queue is empty, no generator is registered, the pool has finished *)
 PoolIdle(s) == \A t \in TS : s.pl[t] \notin {"queued", "execd"}
 Stable(s) == /\ s.q = <<>>
              /\ \A t \in TS : s.ws[t] \in {"idle", "fin", "rej"} /\ s.cs[t] \in {"none", "wait", "end"}
-Drain(s) == IF s.term THEN s ELSE JoinAll(s, 1)
-RECURSIVE SettleF(_, _)
-SettleF(s, n) ==
-  LET d == Drain(s) IN
-  IF Stable(d) THEN Put(d, <<Ln("quiet", 0, IF d.closed THEN 0 ELSE 1, "")>>)
-  ELSE IF n = 0 THEN Put(d, <<Ln("quiet", 0, IF d.closed THEN 0 ELSE 1, "unsettled")>>)
-  ELSE SettleF(TickF(d), n - 1)
 
 -----------------------------------------------------------------------------
 LastKind == IF hist = <<>> THEN "" ELSE hist[Len(hist)][1]
@@ -199,7 +192,7 @@ Commit(s, h) ==
   LET r == Run(P, s.ls, bad) IN
   /\ st' = [s EXCEPT !.ls = <<>>]
   /\ P' = r[1] /\ bad' = r[2]
-  /\ out' = out \o s.ls
+  /\ out' = IF KeepOut THEN out \o s.ls ELSE out
   /\ hist' = Append(hist, h)
   /\ UNCHANGED variant
 
@@ -240,9 +233,12 @@ Other ==
   /\ WithOther /\ CanStep /\ ~st.oreq
   /\ Commit(Enq(Put([st EXCEPT !.oreq = TRUE], <<Ln("ounreg", 0, 0, "")>>), <<Ev("oprep", 0, 0)>>), <<"O", 0, 0>>)
 
+(* quiescence (the driver: let the pool finish, tick until nothing is left to do - which here is
+   already so; the way there are Exec, Publish and Tick steps) *)
 Quiet ==
   /\ hist # <<>> /\ LastKind # "Q"
-  /\ Commit(SettleF(st, SettleCap), <<"Q", 0, 0>>)
+  /\ Stable(st) /\ (PoolIdle(st) \/ st.term)
+  /\ Commit(Put(st, <<Ln("quiet", 0, IF st.closed THEN 0 ELSE 1, "")>>), <<"Q", 0, 0>>)
 
 Next == \/ \E mode \in Modes, c \in Outcomes : Fire(mode, c)
         \/ Tick
